@@ -298,7 +298,12 @@ class _Resolver(ast.NodeTransformer):
             t = u(node)
             if t in self.st.attrs and not (set(_root_names(node)) & self.bound):
                 return self._mark(self.st.attrs[t])
-        return self.generic_visit(node)
+        node = self.generic_visit(node)  # type: ignore[assignment]
+        if isinstance(node.ctx, ast.Load) and self.st.attrs:
+            t = u(node)  # the base was a local standing for an object (`stream` -> `self._battery`): look again
+            if t in self.st.attrs and not (set(_root_names(node)) & self.bound):
+                return self._mark(self.st.attrs[t])
+        return node
 
     def visit_Lambda(self, node: ast.Lambda) -> ast.AST:  # noqa: N802
         a = node.args
@@ -595,6 +600,9 @@ class Exec:
         if isinstance(e, ast.Call):
             if u(e.func) == "bool" and len(e.args) == 1 and not e.keywords:
                 return self._bool(e.args[0], st, depth)
+            unrolled = _unroll_any_all(e)
+            if unrolled is not None:
+                return self._bool(unrolled, st, depth)
             got = self._inline(e, st, "bool", depth)
             if got is not None:
                 out = []
@@ -731,6 +739,21 @@ class Exec:
 
     def _assign(self, targets: list[ast.AST], val: ast.AST, st: State, depth: int) -> list[State]:
         """`t1 = t2 = val` (val resolved): the value is evaluated once, then stored left to right."""
+        if len(targets) == 1 and isinstance(targets[0], (ast.Tuple, ast.List)):
+            # `a, b = <helper returning a tuple>` / `a, b = x, y`: element-wise once the value is a tuple display
+            elts = targets[0].elts
+            out = []
+            for s, v in self._value(val, st, depth):
+                if not isinstance(v, (ast.Tuple, ast.List)) or len(v.elts) != len(elts) or any(
+                        isinstance(x, ast.Starred) for x in list(elts) + list(v.elts)):
+                    raise Unsupported("unpacking of a value that is not a tuple display of the same length")
+                cur = [s]
+                for t, x in zip(elts, v.elts):
+                    x = copy.deepcopy(x)
+                    x._from_env = True  # type: ignore[attr-defined]  (its calls were recorded with the tuple)
+                    cur = [s3 for s2 in cur for s3 in self._assign([t], x, s2, depth)]
+                out.extend(cur)
+            return out
         for t in targets:
             if not isinstance(t, (ast.Name, ast.Attribute, ast.Subscript)):
                 raise Unsupported(f"assignment target {type(t).__name__}")
@@ -771,6 +794,29 @@ class Exec:
                     n.ctx = ast.Load()  # type: ignore[attr-defined]
             val = self._res(ast.BinOp(left=load, op=s.op, right=s.value), st)
             return [(x, None) for x in self._assign([s.target], val, st, depth)]
+        if isinstance(s, ast.For) and isinstance(s.target, ast.Name) and not s.orelse:
+            it = self._res(s.iter, st)
+            if isinstance(it, (ast.Tuple, ast.List)) and len(it.elts) <= 8 and not any(
+                    isinstance(x, ast.Starred) for x in it.elts) and not _has_loop_jump(s.body):
+                # a loop over a display of known elements is its body once per element
+                live: list[State] = [st]
+                done: list[tuple[State, tuple[str, ast.AST | None] | None]] = []
+                for elt in it.elts:
+                    nxt: list[State] = []
+                    for cur in live:
+                        cur.locals[s.target.id] = elt
+                        for s2, ex in self._block(s.body, cur, mode, depth):
+                            if ex[0] == "fall":
+                                nxt.append(s2)
+                            else:
+                                done.append((s2, ex))
+                    live = nxt
+                return done + [(x, None) for x in live]
+        if isinstance(s, (ast.For,)):
+            as_if = _search_loop_as_if(s)
+            if as_if is None:
+                raise Unsupported(f"loop at line {getattr(s, 'lineno', '?')}")
+            return self._stmt(as_if, st, mode, depth)
         if isinstance(s, ast.If) and _only_logs(s):
             return [(st, None)]  # reporting only: neither outcome changes state, calls or results
         if isinstance(s, ast.If):
@@ -811,6 +857,79 @@ def _replace_child(root: ast.AST, old: ast.AST, new: ast.AST) -> None:
                         value[i] = new
                         return
     raise Unsupported("internal: node to replace not found")
+
+
+def _has_loop_jump(body: list[ast.stmt]) -> bool:
+    def scan(stmts: list[ast.stmt]) -> bool:
+        for x in stmts:
+            if isinstance(x, (ast.Break, ast.Continue)):
+                return True
+            if isinstance(x, (ast.For, ast.AsyncFor, ast.While, ast.FunctionDef, ast.AsyncFunctionDef, ast.ClassDef)):
+                continue
+            for f in ("body", "orelse", "finalbody"):
+                if scan(getattr(x, f, []) or []):
+                    return True
+            if any(scan(h.body) for h in getattr(x, "handlers", [])):
+                return True
+        return False
+    return scan(body)
+
+
+def _unroll_any_all(e: ast.Call) -> ast.AST | None:
+    """`any(c(v) for v in (a, b))` == `c(a) or c(b)`; `all(...)` == `... and ...`; also over a display of
+    conditions, `all((p, q))` == `p and q` (evaluation of all operands first is not modelled)."""
+    name = u(e.func)
+    if name not in ("any", "all") or len(e.args) != 1 or e.keywords:
+        return None
+    op = ast.Or() if name == "any" else ast.And()
+    g = e.args[0]
+    if isinstance(g, (ast.GeneratorExp, ast.ListComp)) and len(g.generators) == 1:
+        c = g.generators[0]
+        if isinstance(c.target, ast.Name) and isinstance(c.iter, (ast.Tuple, ast.List)) and 0 < len(c.iter.elts) <= 8 \
+                and not c.is_async and not any(isinstance(x, ast.Starred) for x in c.iter.elts):
+            vals = []
+            for elt in c.iter.elts:
+                class Sub(ast.NodeTransformer):
+                    def visit_Name(self, node: ast.Name, elt: ast.AST = elt, v: str = c.target.id) -> ast.AST:  # noqa: N802
+                        return copy.deepcopy(elt) if node.id == v and isinstance(node.ctx, ast.Load) else node
+                term: ast.AST = Sub().visit(copy.deepcopy(g.elt))
+                for cond in reversed(c.ifs):
+                    cc = Sub().visit(copy.deepcopy(cond))
+                    term = ast.BoolOp(op=ast.And(), values=[cc, term]) if name == "any" else \
+                        ast.BoolOp(op=ast.Or(), values=[ast.UnaryOp(op=ast.Not(), operand=cc), term])
+                vals.append(term)
+            return vals[0] if len(vals) == 1 else ast.BoolOp(op=op, values=vals)
+    return None
+
+
+def _search_loop_as_if(s: ast.For) -> ast.If | None:
+    """A search loop is the conditional it computes:
+         for v in it:                         if any(c(v) for v in it):
+             if c(v): [log]; return r   ==        return r
+         for v in it:                         if any(c(v) for v in it):
+             if c(v): x = k; break      ==        x = k
+    (`it` and `c` effect-free; what happens on a hit does not use `v` apart from logging)."""
+    if s.orelse or len(s.body) != 1 or not isinstance(s.body[0], ast.If) or s.body[0].orelse:
+        return None
+    inner = s.body[0]
+    hit = [b for b in inner.body if not (_is_log_stmt(b) or (isinstance(b, ast.If) and _only_logs(b)))]
+    bound = {n.id for n in ast.walk(s.target) if isinstance(n, ast.Name)}
+    if not hit or any(isinstance(n, ast.Name) and n.id in bound for b in hit for n in ast.walk(b)):
+        return None
+    if isinstance(hit[-1], ast.Return):
+        body = hit
+    elif isinstance(hit[-1], ast.Break):
+        body = hit[:-1] or [ast.Pass()]
+    else:
+        return None
+    if any(not isinstance(b, (ast.Assign, ast.AnnAssign, ast.Return, ast.Pass)) for b in body) or any(
+            isinstance(n, (ast.Await, ast.NamedExpr, ast.Yield)) or (isinstance(n, ast.Call) and not _is_pure_call(n))
+            for x in (s.iter, inner.test) for n in ast.walk(x)):
+        return None
+    gen = ast.GeneratorExp(elt=inner.test, generators=[ast.comprehension(target=s.target, iter=s.iter, ifs=[], is_async=0)])
+    test = ast.Call(func=ast.Name(id="any", ctx=ast.Load()), args=[gen], keywords=[])
+    out = ast.If(test=test, body=body, orelse=[])
+    return ast.fix_missing_locations(ast.copy_location(out, s))
 
 
 def _is_log_stmt(s: ast.stmt) -> bool:
